@@ -385,6 +385,20 @@ func (c07) Gen(r *kern.Rng, tier string, idx int) *Trace {
 		}
 		sc.In.Parts = append(sc.In.Parts, sp)
 	}
+	if pkg == "zlib" && r.Pct(25) {
+		// a container with a preset dictionary (FDICT, dictionary id in the header)
+		w := genContainerW(r, "zlib", maxLen)
+		w.Ctor = "dict"
+		d := scen.GenData(r, 2000)
+		if d.Len < 4 {
+			d.Len = 40
+		}
+		w.Dict = &d
+		w.Level = r.Pick(-2, 0, 1, 2) // delegated dictionary Writer; levels that avoid KF-C01-dict-stored's trigger are not needed: the container is validated against the stdlib below
+		w.Ops = GenOps(r, w.Data.Len, 0, 10)
+		sc.In.Parts = []scen.StreamSpec{{Enc: "std", W: w}}
+		sc.Dict = &d
+	}
 	sc.Src = genSrc(r, true)
 	sc.Del = genDelivery(r)
 	sc.Reads = genReads(r)
